@@ -125,6 +125,11 @@ fn main() {
                        "price": if mkt { -1 } else { price(&mut rng) }})
             };
             let mut lbl = lbl;
+            // now and then the request goes to the book the market hands out instead of through the market's own method
+            if matches!(lbl["op"].as_str(), Some("create") | Some("cap") | Some("place") | Some("cancel") | Some("modify")) && rng.gen::<f64>() < 0.12 {
+                lbl["via"] = json!("book");
+                *feats.entry("calls_through_get_order_book_mut".into()).or_insert(0) += 1;
+            }
             history.push(lbl.clone());
             let opn = lbl["op"].as_str().unwrap().to_string();
             let res = guarded(AssertUnwindSafe(|| {
